@@ -22,6 +22,8 @@ from rig.machine_control import utils as mc_utils
 from rig.place_and_route import Cores, SDRAM
 from rig.utils.contexts import ContextMixin
 
+from .. import tlc as tlcmod
+
 WIN = 32            # bytes of recorded memory
 INT_LIMIT = 2 ** 31 - 1
 
@@ -139,7 +141,7 @@ class History(object):
                     new_view = v[slice(args[0], args[1])]
                     val = None
                 elif name == "close":
-                    jargs = []
+                    jargs = list(args)
                     if args and args[0] == "with":
                         with v:
                             pass
@@ -201,10 +203,12 @@ def fits(tr):
     return ok(tr)
 
 
-def run_ops(ops, origin, mem, start, end, label, via="direct", x=1, y=2):
+def run_ops(ops, origin, mem, start, end, label, via="direct", x=1, y=2, cut=False):
     h = History(origin, mem, start, end, x=x, y=y, via=via)
     for op in ops:
         if op[1] > len(h.views):
+            if cut:
+                break                        # (a slicing failed earlier: the rest cannot be run)
             return None                      # names a view that does not exist in this history
         h.perform(op)
     return h.trace(label)
@@ -260,7 +264,7 @@ def small_scope(chk, rng):
                                  ("write", 3, 2)]
     depth = chk.pick(2, 3)
     for first in ((1, 3), (-3, None), (0, 9), (2, 2)):
-        for ln in range(0, depth + 1):
+        for ln in range(0, (depth if first == (1, 3) else 2) + 1):
             for seq in itertools.product(slal, repeat=ln):
                 t = run_ops(concretise([("slice", 1, first)] + list(seq)), 88, mem, start, end, "small-slice")
                 if t is not None:
@@ -270,7 +274,7 @@ def small_scope(chk, rng):
         "4-byte root view at relative addresses 12..15 of a %d-byte window: (a) all sequences of <= %d operations over "
         "%d root operations (9 seeks over the three whences incl. negative / beyond-the-end targets, 4 reads incl. the "
         "default, 3 writes, 6 slicings incl. negative / reversed / absent bounds, tell, address, len, flush, close, "
-        "free); (b) a first slice [1:3] / [-3:] / [0:9] / [2:2], then all sequences of <= %d operations over %d "
+        "free); (b) a first slice [1:3] (then all sequences of <= %d) / [-3:] / [0:9] / [2:2] (<= 2) operations over %d "
         "operations on the slice, the root and a slice of the slice" % (WIN, maxlen, len(rootal), depth, len(slal)))
     chk.extra["small_scope_traces"] = n
 
@@ -345,16 +349,135 @@ def random_history(rng, clean, nops):
     return h
 
 
+# ------------------------------------------------------------------------------------------ behaviours from TLC
+def simulated(chk, rng):
+    """Behaviours of FileViewDesign generated by TLC's simulator (cfg FileViewDesign_sim: 3-byte allocation, up to
+    4 views, 10 operations), translated operation by operation and run on the real views."""
+    import json
+    import os
+    import re
+    with open(os.path.join(tlcmod.SPEC_DIR, "cfg", "FileViewDesign_sim.cfg")) as fh:
+        m = re.search(r"RootLo = (\d+)\s+RootHi = (\d+)", fh.read())
+    vlen = int(m.group(2)) - int(m.group(1))
+    r = tlcmod.run_tlc("FileViewDesign", "FileViewDesign_sim.cfg", workers=1, heap="2g", timeout=600,
+                       simulate="num=%d" % chk.pick(150, 1500), depth=12, seed=chk.seed + 1)
+    chk.jobs.append(dict(job="S", module="FileViewDesign", cfg="FileViewDesign_sim.cfg", **r.summary()))
+    if not r.ok:
+        from ..core import MachineryError
+        raise MachineryError("simulation of FileViewDesign failed: %s" % r.error)
+    lines = sorted(set(r.infos))
+    rng.shuffle(lines)
+    lines = lines[:chk.pick(1500, 15000)]
+    mem = bytes(bytearray((11 * i + 3) & 0xFF for i in range(WIN)))
+    guarded = ("tell", "read", "write", "seek", "flush", "address")
+    out = []
+    for ln in lines:
+        beh = json.loads(ln.replace('\\"', '"').replace("<<", "[").replace(">>", "]"))
+        ops = []
+        for k, (kind, v, a) in enumerate(beh):
+            if kind in ("seek", "seekrefused"):
+                ops.append(("seek", v, (a[0], a[1])))
+            elif kind == "read":
+                ops.append(("read", v, () if a[0] < 0 else (a[0],)))
+            elif kind == "write":
+                ops.append(("write", v, (bytes(bytearray([k + 1] * a[0])),)))
+            elif kind == "slice":
+                ops.append(("slice", v, tuple(b[0] if b else None for b in a)))
+            elif kind in ("close", "free"):
+                ops.append((kind, v, ()))
+            elif kind == "fail":                  # some guarded operation on a dead view
+                g = guarded[k % len(guarded)]
+                ops.append((g, v, {"read": (), "write": (b"zz",), "seek": (1, 0)}.get(g, ())))
+            else:
+                raise AssertionError(kind)
+        out.append(run_ops(ops, 88, mem, 12, 12 + vlen, "tlc-simulated", cut=True))
+    return out
+
+
+def ops_of(ev):
+    """the operations of a recorded trace, to run them again"""
+    ops = []
+    for e in ev:
+        nm = e[0]
+        if nm == "end":
+            break
+        a = e[2]
+        if nm == "seek":
+            args = (a[0], a[1])
+        elif nm == "write":
+            args = (bytes(bytearray(a[0])),)
+        elif nm == "slice":
+            args = tuple(b[0] if b else None for b in a)
+        else:
+            args = tuple(a)
+        ops.append((nm, e[1], args))
+    return ops
+
+
+def key_of(tr, i, clauses):
+    op = tr["ev"][i - 1][0]
+    for c in ("ConfinedAtNegativePosition", "ConfinedBeyondEnd", "SeekFromEnd", "Confined"):
+        if c in clauses:
+            return "%s in %s" % (c, op)
+    return "%s: %s" % (op, ",".join(clauses))
+
+
+def replay(chk):
+    import json
+    with open(chk.replay_path) as fh:
+        old = json.load(fh)["replay"]["trace"]
+    t = run_ops(ops_of(old["ev"]), old["origin"], bytes(bytearray(old["mem"])), old["start"], old["end"], "replay",
+                via=old["via"], x=old["x"], y=old["y"])
+    chk.note_case(t["ops"])
+    chk.sample(t)
+    chk.rule = "replay of %s: the recorded operations run again on the real views" % chk.replay_path
+    chk.validate("FileViewTrace", "FileViewTrace.cfg", [t], key_of=key_of, workers=1)
+    chk.replayed += 0
+
+
 def run(chk):
+    if chk.replay_path:
+        return replay(chk)
     rng = random.Random(chk.seed)
-    chk.design("FileViewDesign", "FileViewDesign_%s.cfg" % chk.tier,
-               expect_actions=("DoSeek", "DoSeekRefused", "DoRead", "DoWrite", "DoSlice", "DoClose", "DFree", "DoFail"))
-    traces = []
+    acts = ("DoSeek", "DoSeekRefused", "DoRead", "DoWrite", "DoSlice", "DoClose", "DFree", "DoFail")
+    chk.design("FileViewDesign", "FileViewDesign_%s.cfg" % chk.tier, expect_actions=acts,
+               label="root + 2 slices, histories of <= 4 operations")
+    if not chk.quick:
+        chk.design("FileViewDesign", "FileViewDesign_deep.cfg", expect_actions=acts,
+                   label="root + 1 slice, histories of <= 6 operations")
+    rej = []
+    pending = []
+
+    def judge(force=False):
+        """hand the pending traces to TLC (in chunks, so that a thorough run does not hold them all)"""
+        if not pending or (len(pending) < 36000 and not force):
+            return
+        for t in pending:
+            for e in t["ev"][:-1]:                      # informational counters (no verdicts)
+                chk.count("op " + e[0])
+                if e[3][0] == "raise":
+                    chk.count("operations that raised " + e[3][1])
+                if e[5]:
+                    chk.count("operations with a TruncationWarning")
+            chk.count("views created by slicing", sum(1 for e in t["ev"] if e[0] == "slice" and e[3][0] == "ok"))
+        rej.extend(chk.validate("FileViewTrace", "FileViewTrace.cfg", pending, key_of=key_of, batch=12000, workers=4))
+        del pending[:]
+
+    nsmall = 0
     for t in small_scope(chk, rng):
-        traces.append(t)
+        pending.append(t)
+        nsmall += 1
+        if nsmall in (41, 30000):
+            chk.sample(t)
         chk.note_case(t["ops"], nontrivial=len(t["ops"]) >= 2)
-    nsmall = len(traces)
-    nrandom = chk.pick(4000, 60000)
+        judge()
+    sim = simulated(chk, rng)
+    for t in sim:
+        pending.append(t)
+        chk.note_case(t["ops"])
+    chk.sample(sim[0])
+    chk.extra["tlc_simulated_behaviours_replayed_into_impl"] = len(sim)
+    nrandom = chk.pick(4000, 50000)
     for i in range(nrandom):
         clean = rng.random() < 0.6
         h = random_history(rng, clean, rng.randint(3, 24))
@@ -362,22 +485,18 @@ def run(chk):
         if not fits(t):
             chk.skip("an integer of the trace does not fit TLC's 32 bits")
             continue
-        traces.append(t)
+        pending.append(t)
+        if i in (0, 1):
+            chk.sample(t)
         chk.note_case((t["mem"], t["start"], t["end"], t["ops"]),
                       nontrivial=any(e[0] in ("read", "write") and e[4] for e in t["ev"]))
-    # informational counters (no verdicts)
-    for t in traces:
-        for e in t["ev"][:-1]:
-            chk.count("op " + e[0])
-            if e[3][0] == "raise":
-                chk.count("operations that raised " + e[3][1])
-            if e[5]:
-                chk.count("operations with a TruncationWarning")
-        chk.count("views created by slicing", sum(1 for e in t["ev"] if e[0] == "slice" and e[3][0] == "ok"))
+        judge()
+    judge(force=True)
     chk.rule = ("histories of seek (whence 0/1/2, any offset) / tell / read (any count, default) / write / slice (any "
                 "bounds, slices of slices) / close (also through a with block) / free / flush / address / len on a real "
                 "MemoryIO and the SlicedMemoryIO objects cut from it, over a recording controller; small scope first "
-                "(see small_scope_domain), then seeded random histories of 3-24 operations on views of length 0-8 at "
+                "(see small_scope_domain), then behaviours of FileViewDesign produced by TLC's simulator and replayed "
+                "operation by operation, then seeded random histories of 3-24 operations on views of length 0-8 at "
                 "several window origins (0 .. 0xFFFF0000), created directly (incl. end < start) or through "
                 "sdram_alloc_for_vertices; 60% of the random histories keep positions inside 0..len+3, write only "
                 "from positions <= len and seek from the end only with offset 0; non-trivial = at least 2 operations "
@@ -388,16 +507,8 @@ def run(chk):
     chk.assumptions.append("writes are write-through (rig documents that views do not buffer): the memory after each "
                            "operation is compared with the file model, so a buffering implementation would be rejected")
     chk.assumptions.append("addresses are recorded relative to the window origin so that they fit TLC's 32-bit integers")
-    chk.sample(traces[40]); chk.sample(traces[nsmall - 1]); chk.sample(traces[nsmall]); chk.sample(traces[-1])
-
-    def key_of(tr, i, clauses):
-        op = tr["ev"][i - 1][0]
-        for c in ("ConfinedAtNegativePosition", "ConfinedBeyondEnd", "SeekFromEnd", "Confined"):
-            if c in clauses:
-                return "%s in %s" % (c, op)
-        return "%s: %s" % (op, ",".join(clauses))
-
-    rej = chk.validate("FileViewTrace", "FileViewTrace.cfg", traces, key_of=key_of, batch=12000, workers=4)
+    chk.assumptions.append("a TruncationWarning at a position inside 0..len is taken to assert that the transfer was "
+                           "cut short (clause WarningMeansTruncation)")
     # the shortest rejected history per key (mechanical)
     shortest = {}
     for tr, i, clauses in rej:
